@@ -78,8 +78,8 @@ func materialise(es []Entry) ([]row, error) {
 	rows := make([]row, len(es))
 	for i, e := range es {
 		k := e.Key()
-		if len(k) == 0 || len(k) > 65535 {
-			return nil, fmt.Errorf("entry %d: key length %d outside 1..65535", i, len(k))
+		if len(k) > 65535 {
+			return nil, fmt.Errorf("entry %d: key length %d outside 0..65535", i, len(k))
 		}
 		if i > 0 && bytes.Compare(rows[i-1].key, k) >= 0 {
 			return nil, fmt.Errorf("entry %d: keys not strictly ascending", i)
